@@ -220,3 +220,21 @@ Proof.
   split; [vm_compute; discriminate|]. split; [vm_compute; reflexivity|].
   intros r [->|[->| ->]]; vm_compute; reflexivity.
 Qed.
+
+(** *** Node keys of the erased future are reused, the node cache is never invalidated
+    (NodeCache.v).  From ANY cache state (no coherence needed - the cache may be full of nodes of
+    the erased timeline) and for EVERY capacity: delete the keys of the versions above [v], commit,
+    save the new nodes under the reused keys, commit: GetNode of a reused key returns the NEW
+    node.  What makes it true is that SaveNode replaces the cached entry of the key it writes;
+    the two variants without that are refuted in Properties/C01. *)
+From IAVL Require Import Store StoreFacts NodeCache NodeCacheFacts.
+
+Theorem C09_reused_node_keys_read_the_new_nodes :
+  forall (V : Type) (is_node : V -> bool) (cap : nat) (st : cstate V)
+         (dels : list (Z * Z)) (news : list (Z * Z * V)) (k : Z * Z) (v : V),
+    lru_wf (cache st) -> NoDup (map fst news) -> In (k, v) news -> is_node v = true ->
+    last (fst (crun is_node cap st
+                 (map (@CDel V) dels ++ [CCommit] ++ save_ops news ++ [CCommit; CGet k])))
+         OUnit = OGot (Some v).
+Proof. exact rollback_recommit. Qed.
+Print Assumptions C09_reused_node_keys_read_the_new_nodes.
